@@ -1126,7 +1126,16 @@ def value_attr(E, st, base, attr):
         if base.py is bytes and attr == 'fromhex':
             return BuiltinV('bytes.fromhex', lambda E, st, a, k: val(st, bytes.fromhex(a[0])) if isinstance(a[0], str) else (_ for _ in ()).throw(Unsupported('fromhex')))
         if base.py is dict and attr == 'fromkeys':
-            raise Unsupported('dict.fromkeys')
+            def fromkeys(E, st, a, k):
+                # dict.fromkeys(iterable of constant keys, value): a NEW dict mapping every key to the same value
+                if k or not 1 <= len(a) <= 2:
+                    raise Unsupported('dict.fromkeys call shape')
+                keys = E.iter_concrete(a[0], st)
+                if not all(E.is_hashable_concrete(x) for x in keys):
+                    raise Unsupported('dict.fromkeys with symbolic keys')
+                v = a[1] if len(a) == 2 else None
+                return val(st, st.alloc(HObj('dict', items={x: v for x in keys})))
+            return BuiltinV('dict.fromkeys', fromkeys)
         if attr == '__name__':
             return base.py.__name__
         return _MISSING
@@ -1146,6 +1155,8 @@ def value_attr(E, st, base, attr):
                 return val(st, tuple(base.d.values()))
             if attr == 'items':
                 return val(st, tuple(base.d.items()))
+            if attr == 'copy':
+                return val(st, st.alloc(HObj('dict', items=dict(base.d))))
             raise Unsupported('constant dict .%s' % attr)
         return BuiltinV('dict.' + attr, fdm)
     if isinstance(base, frozenset) and attr in ('issubset', 'issuperset', 'isdisjoint', 'union', 'intersection', 'difference',
@@ -1517,6 +1528,10 @@ def container_attr(E, st, ref, h, attr):
     if h.kind == 'dict':
         def dm(E, st, a, k):
             h = st.heap[ref.oid]
+            if a and attr == 'get' and isinstance(a[0], SStr) and not isinstance(a[0], SStrL1) and \
+                    all(isinstance(x, (str, int, bytes, tuple, type(None))) for x in h.items):
+                # an unknown string is by definition unequal to every string constant (and to every non-string key): absent
+                return val(st, a[1] if len(a) > 1 else None)
             if a and not E.is_hashable_concrete(a[0]) and attr in ('get', 'pop', 'setdefault'):
                 raise Unsupported('symbolic dict key')
             if attr == 'get':
@@ -1714,6 +1729,18 @@ def external_attr(E, modname, attr):
 # hooks that contracts may extend -------------------------------------------------
 
 def object_attr(E, st, ref, h, attr):
+    from .interp import BuiltinV, ClassV
+    if attr == '__new__':
+        # obj.__new__(Cls): a fresh instance of Cls without running __init__ (object.__new__; no class here defines __new__)
+        def new(E, st, a, k):
+            if len(a) != 1 or not isinstance(a[0], ClassV) or k or a[0].info.find_method('__new__') is not None:
+                raise Unsupported('__new__ with these arguments')
+            return val(st, st.alloc(HObj('obj', cls=a[0].info)))
+        return BuiltinV('object.__new__', new)
+    if attr == '__dict__':
+        # read access: an immutable snapshot of the instance fields (FrozenDict has no mutators: a write through the live
+        # view would be outside the subset, not silently lost); unresolved lazily typed fields stay shared
+        return FrozenDict(dict(h.fields))
     return _MISSING
 
 
